@@ -193,11 +193,11 @@ Proof.
     cbn [bind].
     rewrite fnc_from_spec by (rewrite app_length; cbn [length]; lia).
     replace (length P + 1 + 1)%nat with (length P + 2)%nat by lia. rewrite skipn_plus. cbn [skipn].
-    rewrite Hfi. cbn [bind].
+    rewrite Hfi. cbn [bind]. cbn [rec_from]. rewrite oz_eqb_refl. cbn [of_option bind].
     unfold py_slice. replace (length P + 1 + 2)%nat with (length P + 3)%nat by lia. rewrite skipn_plus. cbn [skipn].
     replace (length P + 2 + Datatypes.S (length ds) - (length P + 3))%nat with (length D) by lia.
     rewrite firstn_app, Nat.sub_diag, firstn_all. cbn [firstn]. rewrite app_nil_r.
-    unfold D. rewrite py_int_full_digits by assumption. cbn [bind]. rewrite HN. cbn [length skipn].
+    unfold D. rewrite py_int_full_digits by assumption. cbn [bind]. rewrite HN.
     destruct (exp_times _ _ _ _ _ _) as [[[[g cur] pn] base]|]; cbn [bind]; [|reflexivity].
     destruct base as [b|]; cbn [of_option bind]; [|reflexivity].
     replace (length P + 2 + Datatypes.S (length ds))%nat with (length P + (3 + length (digits_str ds)))%nat by (unfold digits_str; rewrite map_length; lia).
@@ -207,11 +207,11 @@ Proof.
     cbn [ch_eq]. change (Ascii.eqb "|"%char "|"%char) with true. cbn [orb of_option bind].
     change (Ascii.eqb "|"%char "|"%char) with true. cbn [negb bind].
     rewrite fnc_from_spec by (rewrite app_length; cbn [length]; lia).
-    rewrite skipn_plus. cbn [skipn]. rewrite Hfi. cbn [bind].
+    rewrite skipn_plus. cbn [skipn]. rewrite Hfi. cbn [bind]. rewrite Hrc. cbn [rec_from]. rewrite oz_eqb_refl. cbn [of_option bind].
     unfold py_slice. rewrite skipn_plus. cbn [skipn].
     replace (length P + 1 + Datatypes.S (length ds) - (length P + 2))%nat with (length D) by lia.
     rewrite firstn_app, Nat.sub_diag, firstn_all. cbn [firstn]. rewrite app_nil_r.
-    unfold D. rewrite py_int_full_digits by assumption. cbn [bind]. rewrite HN. rewrite Hrc. cbn [length skipn].
+    unfold D. rewrite py_int_full_digits by assumption. cbn [bind]. rewrite HN.
     destruct (exp_times _ _ _ _ _ _) as [[[[g cur] pn] base]|]; cbn [bind]; [|reflexivity].
     destruct base as [b|]; cbn [of_option bind]; [|reflexivity].
     match goal with |- context [nth_error (P ++ ?R) ?n] =>
